@@ -108,7 +108,7 @@ func (m *Machine) threadExit(t *Thread) {
 		return
 	}
 	k := 0
-	if len(en) > 1 {
+	if len(en) > 1 && !m.cfg.SchedFixed {
 		func() {
 			defer func() {
 				if r := recover(); r != nil {
@@ -216,7 +216,10 @@ func (m *Machine) blockUntil(pred func() bool, what string) {
 			}
 			panic(pathEnd{kind: "deadlock", msg: msg})
 		}
-		k := m.pick(len(en), "schedule (blocked on "+what+")")
+		k := 0
+		if !m.cfg.SchedFixed {
+			k = m.pick(len(en), "schedule (blocked on "+what+")")
+		}
 		m.switchTo(en[k])
 	}
 	self.blocked = nil
